@@ -111,9 +111,7 @@ NORES = {"aset": [], "aval": [], "oset": [], "oval": []}
 
 def parse_once(parser, fmt_obj, f, tokens, lenient, form="argv"):
     """returns (err, result, extra)"""
-    from clikit.args import ArgvArgs, StringArgs
-
-    raw = ArgvArgs(["prog"] + list(tokens))
+    raw, _ = make_raw(list(tokens), form)
     try:
         parsed = parser.parse(raw, fmt_obj, lenient)
     except Exception as e:  # noqa
@@ -138,16 +136,25 @@ def listing(fobj):
                        [c.string for c in fobj.get_command_names()], [c.long_name for c in fobj.get_command_options()]])
 
 
-def event(f, fobj, tokens, lenient, parser=None, mut=None, recipe=None):
+def make_raw(toks, form):
+    """argv form, or - when every token can be double-quoted literally - the equivalent command string"""
+    from clikit.args import ArgvArgs, StringArgs
+
+    if form == "string" and not any(c in t for t in toks for c in "'\"\\"):
+        return StringArgs(" ".join('"%s"' % t for t in toks)), None
+    argv = ["prog"] + list(toks)
+    return ArgvArgs(argv), argv
+
+
+def event(f, fobj, tokens, lenient, parser=None, mut=None, recipe=None, form="argv"):
     """one request for ArgsParserTrace: observed on `parser` (fresh if None), on a fresh parser, in the other mode;
     also whether argv list / raw tokens / format listings survived the call untouched"""
     from clikit.args import ArgvArgs, DefaultArgsParser
 
     toks = ["".join(t) for t in tokens]
     before = listing(fobj)
-    argv = ["prog"] + list(toks)
-    argv0 = list(argv)
-    raw = ArgvArgs(argv)
+    raw, argv = make_raw(toks, form)
+    argv0 = list(argv) if argv is not None else None
     tok0 = list(raw.tokens)
     p = parser or DefaultArgsParser()
     extra = None
